@@ -343,6 +343,9 @@ func (a *act) runBody(guard string, st *State) {
 				if _, isPanic := in.(*ssa.Panic); isPanic {
 					dead = true
 				}
+				if a.top && a.spec != nil && len(a.spec.Asserts) > 0 {
+					a.hintsAfter(in, b, reach, cur)
+				}
 			}
 			if dead {
 				break
@@ -799,4 +802,75 @@ func (a *act) callWrites(c *ssa.CallCommon) (map[string]Sort, bool) {
 		}
 	}
 	return out, all
+}
+
+// hintsAfter checks and assumes the contract's assert hints anchored at this instruction.
+func (a *act) hintsAfter(in ssa.Instruction, b *ssa.BasicBlock, reach string, st *State) {
+	fx := a.fx
+	if a.hintAnchors == nil {
+		a.hintAnchors = map[ssa.Instruction][]*AssertHint{}
+		for _, h := range a.spec.Asserts {
+			var best ssa.Instruction
+			for _, blk := range a.fn.Blocks {
+				for _, ins := range blk.Instrs {
+					if _, isDbg := ins.(*ssa.DebugRef); isDbg {
+						continue
+					}
+					if _, isPhi := ins.(*ssa.Phi); isPhi {
+						continue
+					}
+					switch ins.(type) {
+					case *ssa.If, *ssa.Jump, *ssa.Return:
+						continue
+					}
+					p := ins.Pos()
+					if !p.IsValid() {
+						continue
+					}
+					if strings.Contains(fx.eng.sourceLine(p), h.Snippet) {
+						if best == nil || ins.Pos() >= best.Pos() {
+							best = ins
+						}
+					}
+				}
+			}
+			if best == nil {
+				fx.degraded = append(fx.degraded, fmt.Sprintf("assert hint anchor %q not found", h.Snippet))
+				continue
+			}
+			a.hintAnchors[best] = append(a.hintAnchors[best], h)
+		}
+	}
+	for _, h := range a.hintAnchors[in] {
+		qn := 0
+		env := &SEnv{vars: map[string]Val{}, act: a, header: b, pkg: a.spec.Pkg, nowOld: fx.nowEntry, qn: &qn, atInstr: in}
+		for _, p := range a.fn.Params {
+			env.vars[p.Name()] = a.vals[p]
+		}
+		t := a.safeSpec(h.C, env, st)
+		name := h.C.Name
+		if name == "" {
+			name = normSpace(h.C.Text)
+		}
+		fx.addObl("assert", name, reach, t, in.Pos(), "proof hint")
+	}
+}
+
+func (e *Engine) sourceLine(p token.Pos) string {
+	pos := e.prog.Fset.Position(p)
+	if e.srcLines == nil {
+		e.srcLines = map[string][]string{}
+	}
+	ls, ok := e.srcLines[pos.Filename]
+	if !ok {
+		data, err := os.ReadFile(pos.Filename)
+		if err == nil {
+			ls = strings.Split(string(data), "\n")
+		}
+		e.srcLines[pos.Filename] = ls
+	}
+	if pos.Line-1 < len(ls) && pos.Line >= 1 {
+		return ls[pos.Line-1]
+	}
+	return ""
 }
